@@ -987,6 +987,25 @@ package eval
 //@     invariant [ast-closed] (ASTCLOSED)
 //@     invariant [calls-so-far] (and (ONLYSTATELESSCALLS $cc) (>= (heap dyn.n) (old (heap dyn.n))))
 
+// C02 / C06 — nesting reduction: rewrites the operand list only of the and/or node at hand, keeps the tree closed
+// (every operand of every node is a node of the tree, operator names stay strings), writes operand arrays only into
+// lists it allocated itself (arrays that existed before the call are untouched), never fails.
+//@ macro (ASTALLOC) (forall ((t Int)) (! (=> (inAst t) (allocated (fld (ref astNode t) children))) :pattern ((inAst t))))
+//@ macro (ASTARRAYSKEPT) (forall ((r Int)) (! (=> (< r (old (next))) (= (select (heap E_ptr_astNode) r) (select (old (heap E_ptr_astNode)) r))) :pattern ((select (heap E_ptr_astNode) r))))
+//@ func optimizeReduceNesting C02 C06
+//@   requires [args] (and (inAst $root) (ASTCLOSED) (ASTALLOC))
+//@   ensures [ast-closed] (and (ASTCLOSED) (ASTALLOC))
+//@   ensures [old-operand-arrays-kept] (ASTARRAYSKEPT)
+//@   storesite astNode.children [only-and-or-operands-are-flattened] (and (= $base $root) (or (ISANDN (fld $root node)) (ISORN (fld $root node))))
+//@   loop 1 (rangeindex)
+//@     invariant [ast-closed] (and (ASTCLOSED) (ASTALLOC))
+//@     invariant [old-operand-arrays-kept] (ASTARRAYSKEPT)
+//@   loop 2 (rangeindex)
+//@     invariant [ast-closed] (and (ASTCLOSED) (ASTALLOC))
+//@     invariant [old-operand-arrays-kept] (ASTARRAYSKEPT)
+//@     invariant [new-list-is-private] (or (= (cap $children) 0) (fresh $children))
+//@     invariant [new-list-in-tree] (forall ((j Int)) (! (=> (and (<= (off $children) j) (< j (+ (off $children) (len $children)))) (inAst (select (arr $children) j))) :pattern ((select (arr $children) j))))
+
 // ---------------------------------------------------------------------------
 // C12 — the operator wrapper installed by calAndSetEventNode: one call of the wrapped operator with the same
 // arguments, results passed through, exactly one OP_EXEC event whose Params are a PRIVATE copy of the arguments.
